@@ -40,7 +40,7 @@ def run(tier, seed):
                 "emitted header parses as C++, and the descriptor-consistency walk over all PDUs reports no error; exit != 0 => non-empty diagnostic; "
                 "distinct = distinct (module text, option set)")
     chk.assumptions = ["compile flags: gcc -std=gnu99 -O0 -w for the delivered C files; g++ -fsyntax-only for headers",
-                       "UBSan reports of the compiler itself are recorded, not judged (recovering build; DESIGN.md Corrections #1)"]
+                       "UBSan reports of the compiler itself are recorded, not judged (recovering build), except null-pointer access reports: there the same command is repeated on an uninstrumented -O0 build of asn1c and a death by signal of that build is the verdict"]
     tc = build.toolchain()
     asn1c = tc.tool("asn1c", "asan")
     skel = os.path.join(tc.repo, "skeletons")
@@ -85,11 +85,20 @@ def run(tier, seed):
         os.makedirs(os.path.join(d, "o"), exist_ok=True)
         with open(os.path.join(d, "m.asn1"), "w", encoding="utf-8", errors="surrogateescape") as f:
             f.write(text)
-        rec = {"kind": kind, "opts": opts, "text": text, "dir": d}
+        rec = {"kind": kind, "opts": opts, "text": text, "dir": d, "name": name}
         rc, so, se = sh([asn1c, "-S", skel, "-pdu=all"] + list(opts) + ["-D", "o", "m.asn1"], cwd=d, env=build.tool_env(), timeout=180)
         rec["rc"] = rc
         rec["stderr"] = se
         rec["ubsan"] = sorted(set(re.findall(r"runtime error: ([^\n]{0,80})", se)))
+        if 0 <= rc < 128 and re.search(r"runtime error: (member access within|load of|store to) (null|misaligned address 0x0000000000)", se):
+            # the recovering UBSan build went on after a null-pointer access the optimiser had made harmless; the same
+            # command on an uninstrumented -O0 build tells whether a user's binary is killed there
+            rc0, _, se0 = sh([tc.tool("asn1c", "plain0"), "-S", skel, "-pdu=all"] + list(opts) + ["-D", "o0", "m.asn1"], cwd=d, env=build.tool_env(), timeout=180)
+            shutil.rmtree(os.path.join(d, "o0"), ignore_errors=True)
+            rec["plain0_rc"] = rc0
+            if rc0 < 0 or rc0 >= 128:
+                rec["rc"] = rc = rc0
+                rec["stderr"] = se = se + "\n[uninstrumented -O0 build of asn1c: status %d]\n" % rc0 + se0[-600:]
         if rc != 0:
             shutil.rmtree(os.path.join(d, "o"), ignore_errors=True)
             return rec
@@ -156,6 +165,8 @@ def run(tier, seed):
             if not diag:
                 chk.violation(dict(key, symptom="rejected-without-diagnostic"), "asn1c exit %d with empty stderr (%s)" % (rc, kind), replay)
             elif kind == "valid":
+                if rec["name"] == "FX":
+                    chk.inconcl("the fixed constructs module was rejected: " + diag.split("\n")[0][:100])
                 chk.count("valid_module_rejected_with_diagnostic")
                 chk.extra.setdefault("rejection_diagnostics", {})
                 dcl = re.sub(r"\d+", "N", diag.split("\n")[0])[:80]
@@ -232,12 +243,14 @@ Wide ::= SET {
 Rec ::= SEQUENCE {
     v INTEGER,
     next Rec OPTIONAL,
-    alt CHOICE { leaf NULL, more Rec } OPTIONAL
+    alt CHOICE { leaf NULL, more [0] Rec } OPTIONAL
 }
 
 Bits ::= BIT STRING { first(0), last(31) } (SIZE(32))
 
-Deep ::= SEQUENCE OF SET OF CHOICE { da [0] Ratio, db [1] SEQUENCE { x Bits } }
+Deep ::= SEQUENCE OF DeepEl
+
+DeepEl ::= SET OF CHOICE { da [0] Ratio, db [1] SEQUENCE { x Bits } }
 
 END
 """
